@@ -470,7 +470,7 @@ func (w *c02World) step(tag string) c02StepResult {
 	}
 
 	// C02: invariants on the persisted record
-	msg, facts := c02CheckRecord(prev.Status.NetworkInterfaces, cur.Status.NetworkInterfaces, pods, w.everPod, w.tainted, w.s.Node.ERDMA)
+	msg, facts := c02CheckRecord(prev.Status.NetworkInterfaces, cur.Status.NetworkInterfaces, pods, w.everPod, w.tainted, w.s.Node.V4 && w.s.Node.V6, w.s.Node.ERDMA)
 	for f := range facts {
 		switch {
 		case strings.HasPrefix(f, "taint:"):
